@@ -821,20 +821,16 @@ theorem objHeadA_run (pj : PJ) (e : Env) (tmp : Iter) (f : Nat) (rest : List Stm
       · have h2' : (tmp1.lim : Int) ≤ tmp1.off + 1 := by omega
         have hn : (typ == typeNone) = false := by rw [h1]; decide
         have hn' : (typ == 0) = false := by rw [h1]; decide
-        simp [h1, h2, h2', hb1, hn, hn', g1, g5, hT, -exec]
-        simp [typeString]
+        simp [h1, h2, h2', hb1, hn, hn', g1, g5, hT, typeString, typeNone]
       · have h2' : ¬ (tmp1.lim : Int) ≤ tmp1.off + 1 := by omega
-        simp [h1, h2, h2', hb1, g1, g5, hT, -exec]
-        simp only [typeString]
-        generalize exec goFuns (f + 1) rest _ = out
-        cases out <;> rfl
+        simp [h1, h2, h2', hb1, g1, g5, hT, typeString]
     · have hb1 : (typ != 2) = true := by simpa [typeString] using h1
       by_cases hn : typ = typeNone
       · subst hn
-        simp [h1, hb1, typeNone, hT, -exec]
+        simp [hb1, typeNone, typeString, hT]
       · have hn' : (typ == 0) = false := by simpa [typeNone] using hn
         have hn'' : (typ == typeNone) = false := by simpa using hn
-        simp [h1, hb1, hn, hn', hn'', hT, -exec]
+        simp [h1, hb1, hn, hn', hn'', hT]
   | panic =>
     intro hA
     simp only [] at hA ⊢
